@@ -18,7 +18,7 @@ def pkgdir(demo):
     base=os.path.basename(demo)
     m=re.search(r"cp\s+\S*"+re.escape(base)+r"\s+(\S+)",readme)
     if m:
-        d=m.group(1).rstrip('/').replace('/tmp/mut-%s/'%ID,'').replace('/tmp/mut2-%s/'%ID,'')
+        d=m.group(1).strip('`\'"').rstrip('/').replace('/tmp/mut-%s/'%ID,'').replace('/tmp/mut2-%s/'%ID,'')
         return os.path.dirname(d) if d.endswith('.go') else d
     head=open(demo).read(2000)
     m=re.search(r"((?:crypto|network|windows|utils|logger)/[A-Za-z0-9_./-]+)",head) or re.search(r"((?:crypto|network|windows|utils|logger)/[A-Za-z0-9_./-]+)",readme)
